@@ -1,0 +1,60 @@
+//go:build verif
+
+/*
+ Licensed to the Apache Software Foundation (ASF) under one
+ or more contributor license agreements.  See the NOTICE file
+ distributed with this work for additional information
+ regarding copyright ownership.  The ASF licenses this file
+ to you under the Apache License, Version 2.0 (the
+ "License"); you may not use this file except in compliance
+ with the License.  You may obtain a copy of the License at
+
+     http://www.apache.org/licenses/LICENSE-2.0
+
+ Unless required by applicable law or agreed to in writing, software
+ distributed under the License is distributed on an "AS IS" BASIS,
+ WITHOUT WARRANTIES OR CONDITIONS OF ANY KIND, either express or implied.
+ See the License for the specific language governing permissions and
+ limitations under the License.
+*/
+
+package events
+
+import (
+	"github.com/apache/yunikorn-scheduler-interface/lib/go/si"
+)
+
+// Verification hooks: only compiled with the "verif" build tag. Constructors and pass-through methods for the
+// unexported history ring buffer and the shim event store; no existing behaviour is changed.
+
+// VerifRingBuffer wraps the unexported ring buffer.
+type VerifRingBuffer struct {
+	b *eventRingBuffer
+}
+
+// NewVerifRingBuffer creates a ring buffer with the given capacity.
+func NewVerifRingBuffer(capacity uint64) *VerifRingBuffer {
+	return &VerifRingBuffer{b: newEventRingBuffer(capacity)}
+}
+
+func (v *VerifRingBuffer) Add(event *si.EventRecord) { v.b.Add(event) }
+
+func (v *VerifRingBuffer) Resize(newSize uint64) { v.b.Resize(newSize) }
+
+func (v *VerifRingBuffer) GetEventsFromID(id uint64, count uint64) ([]*si.EventRecord, uint64, uint64) {
+	return v.b.GetEventsFromID(id, count)
+}
+
+func (v *VerifRingBuffer) GetRecentEvents(count uint64) []*si.EventRecord {
+	return v.b.GetRecentEvents(count)
+}
+
+func (v *VerifRingBuffer) GetLastEventID() uint64 { return v.b.GetLastEventID() }
+
+// Streaming returns an event streaming instance on top of the buffer.
+func (v *VerifRingBuffer) Streaming() *EventStreaming { return NewEventStreaming(v.b) }
+
+// NewVerifEventStore creates an event store with the given size.
+func NewVerifEventStore(size uint64) *EventStore {
+	return newEventStore(size)
+}
